@@ -27,5 +27,5 @@ def run(ctx):
                          bound='tree %d: node pairs (%s), replacement strings: any Unicode character and any Unicode character or empty'
                                % (t, 'first 12 nodes' if q else 'all nodes'), symbolic='two code points, emptiness flag',
                          realised='two node indices'))
-    C += PC.label_holes(ctx, own, [15, 1, 5] if q else range(len(P.SKELS)), vis=(4,) if q else (0, 4, 8))
+    C += PC.label_holes(ctx, own, [P.skel('def f(a, /'), 1, 5] if q else range(len(P.SKELS)), vis=(4,) if q else (0, 4, 8))
     xh.run_conditions(ctx, C)
